@@ -61,6 +61,7 @@ let cl = explode
 
 let bin_of = function
   | "+" -> OAdd, TInt, TInt | "-" -> OSub, TInt, TInt | "*" -> OMul, TInt, TInt
+  | "/" -> ODiv, TInt, TInt
   | "sadd" -> OSAdd, TStr, TStr
   | "<" -> OLt, TInt, TBool | ">" -> OGt, TInt, TBool | "<=" -> OLe, TInt, TBool | ">=" -> OGe, TInt, TBool
   | "&&" -> OAnd, TBool, TBool | "||" -> OOr, TBool, TBool
@@ -386,7 +387,7 @@ let elab_prog (s : Sexp.t) : prog =
 
 (* ---------- canonical MiniGo s-expression (coq/Core/FORMAT_GO.md) ---------- *)
 let op_name = function
-  | OAdd | OSAdd -> "+" | OSub -> "-" | OMul -> "*" | OLt -> "<" | OGt -> ">" | OLe -> "<=" | OGe -> ">="
+  | OAdd | OSAdd -> "+" | OSub -> "-" | OMul -> "*" | ODiv -> "/" | OLt -> "<" | OGt -> ">" | OLe -> "<=" | OGe -> ">="
   | OAnd -> "&&" | OOr -> "||"
 let at x = A (implode x)
 let rec ge (e : gexpr) : Sexp.t =
@@ -435,7 +436,7 @@ let cq_str (x : char list) =
 let cq_list f l = "[" ^ String.concat "; " (List.map f l) ^ "]"
 let cq_bool b = if b then "true" else "false"
 let cq_opt f = function None -> "None" | Some x -> "(Some " ^ f x ^ ")"
-let cq_op = function OAdd -> "OAdd" | OSub -> "OSub" | OMul -> "OMul" | OSAdd -> "OSAdd" | OLt -> "OLt" | OGt -> "OGt"
+let cq_op = function OAdd -> "OAdd" | OSub -> "OSub" | OMul -> "OMul" | ODiv -> "ODiv" | OSAdd -> "OSAdd" | OLt -> "OLt" | OGt -> "OGt"
                      | OLe -> "OLe" | OGe -> "OGe" | OAnd -> "OAnd" | OOr -> "OOr"
 let cq_lib f = let n = implode (libfn_name f) in
   let i = String.index n '.' in
